@@ -63,7 +63,7 @@ def hs(spectrum, freq, dir=None, tail=True):
         ddir = min(ddir, 360 - ddir)
         E = ddir * spectrum.sum(1)
     else:
-        E = np.squeeze(spectrum)
+        E = np.atleast_1d(np.squeeze(spectrum))
     Etot = 0.5 * sum(df * (E[1:] + E[:-1]))
     if tail and freq[-1] > 0.333:
         Etot += 0.25 * E[-1] * freq[-1]
